@@ -468,3 +468,47 @@ def _(tier, seed):
                 if len(failures) >= 12:
                     break
     return dict(evaluations=evals, distinct=len(distinct), failures=failures[:3] if len(failures) >= 12 else [])
+
+
+# -- the collection's Unicode map is a function of (collection, writing mode) alone: the cache never answers for the other mode ----------------------
+sc = scenario("pdfminer.cmapdb", "unicode-map-by-collection-and-writing-mode", """
+def three_requests(db, name, first):
+    get = CMapDB.__dict__["get_unicode_map"].__func__
+    a = get(db, name, first)
+    b = get(db, name, not first)
+    c = get(db, name, first)
+    return (a, b, c)
+""", props=["C07", "C12"])
+
+
+class _Db(T.Sort):
+    def fresh(self, ctx, name):
+        from pyvc.values import SymFn
+        mod = SObj(None, {"CID2UNICHR_H": "horizontal-table", "CID2UNICHR_V": "vertical-table"}, "data-module")
+        o = SObj(None, {"_umap_cache": {}, "_loads": []}, name)
+        o.f["_load_data"] = SymFn(lambda I, nm, o=o, mod=mod: (o.f["_loads"].append(nm), mod)[1], "_load_data")
+        return o
+    def sample(self, rng):
+        return None
+    def from_model(self, ev, v):
+        return "db"
+
+
+sc.param("db", _Db()).param("name", T.Const("Adobe-Japan1")).param("first", T.OneOf(False, True))
+sc.skip_cross = True
+sc.inline_callees = True
+sc.mod("db._umap_cache").mod("db._loads")
+sc.returns(T.Opaque("maps"))
+
+
+def _umap_ok(db, first, result):
+    if not (isinstance(result, tuple) and len(result) == 3):
+        return False
+    tbl = lambda m: m.f.get("cid2unichr") if isinstance(m, SObj) else None
+    want = lambda v: "vertical-table" if v else "horizontal-table"
+    return (tbl(result[0]) == want(first) and tbl(result[1]) == want(not first) and tbl(result[2]) == want(first) and result[2] is result[0]
+            and db._loads == ["to-unicode-Adobe-Japan1"]
+            and (result[0].f["attrs"].get("WMode") == 1) == bool(first) and (result[1].f["attrs"].get("WMode") == 1) == (not first))
+
+
+sc.ens("each-request-gets-the-map-of-its-own-writing-mode-file-read-once", _umap_ok)
